@@ -25,6 +25,7 @@ import (
 	"crypto/x509/pkix"
 	"encoding/asn1"
 	"encoding/pem"
+	"math/big"
 	"net"
 	"net/url"
 	"sort"
@@ -405,6 +406,8 @@ func c15ErrClass(msg string) string {
 		return "err:ip-invalid"
 	case has("IP Subject Alternative Names are not allowed"):
 		return "err:ip"
+	case has("the IP address") && has("is not allowed in this role"):
+		return "err:ip-cidr"
 	case has("URI Subject Alternative Names"):
 		return "err:uri"
 	case has("Either ttl or not_after should be provided"):
@@ -460,6 +463,26 @@ var c15KeyUsages = []string{"DigitalSignature", "KeyAgreement", "KeyEncipherment
 var c15ExtKeyUsages = []string{"ServerAuth", "ClientAuth", "CodeSigning", "EmailProtection", "Any", "TimeStamping", "OCSPSigning",
 	"IPSECUser", "bogus"}
 var c15IPs = []string{"1.2.3.4", "10.0.0.1", "127.0.0.1", "::1", "2001:db8::1"}
+
+// networks for allowed_ip_sans_cidr: each contains some addresses of the alphabet and not others; both families
+var c15CIDRs = []string{"10.0.0.0/8", "1.2.3.0/24", "127.0.0.0/8", "::1/128", "2001:db8::/32", "0.0.0.0/1", "192.168.0.0/16", "10.0.0.1/32"}
+
+// c15CIDRField: the role's allowed networks as stored (white-box), canonical: family:base(decimal):prefix length
+func c15CIDRField(nets []net.IPNet) string {
+	var out []string
+	for _, n := range nets {
+		ones, bits := n.Mask.Size()
+		ip := n.IP
+		fam := "6"
+		if v4 := ip.To4(); v4 != nil && bits == 32 {
+			ip, fam = v4, "4"
+		} else {
+			ip = ip.To16()
+		}
+		out = append(out, fam+":"+new(big.Int).SetBytes(ip).String()+":"+strconv.Itoa(ones))
+	}
+	return c15P(out)
+}
 var c15BadIPs = []string{"999.1.1.1", "a.b.c.d", "1.2.3"}
 var c15URIs = []string{"spiffe://ex.com/a", "https://a.ex.com/x", "urn:foo:bar", "spiffe://evil.com/a"}
 var c15URIPatterns = []string{"spiffe://ex.com/*", "*", "https://*.ex.com/*", "urn:foo:bar", "spiffe://*"}
@@ -533,6 +556,7 @@ func c15FriendlyName(rng *vh.Rand, nr c15NameRole) string {
 func c15GenCase(rng *vh.Rand, keys []c15Key) *c15Case {
 	c := &c15Case{nr: c15RandNameRole(rng)}
 	friendly := rng.Chance(62)
+	ipHeavy := false
 	if c.nr.dn == "" {
 		// the theorems about names carry the hypothesis "allow_token_displayname ⇒ the display name is not empty";
 		// the empty display name stays in the vname/vcn ops (model tie) and out of the whole-request cases
@@ -563,6 +587,11 @@ func c15GenCase(rng *vh.Rand, keys []c15Key) *c15Case {
 		"cn_validations": c.nr.cnv,
 	}
 	rd["allow_ip_sans"] = rng.Chance(60)
+	if rng.Chance(30) {
+		if nets := c15Subset(rng, c15CIDRs, 3); len(nets) > 0 {
+			rd["allowed_ip_sans_cidr"] = nets
+		}
+	}
 	rd["allowed_uri_sans"] = c15Subset(rng, c15URIPatterns, 2)
 	switch k := rng.Intn(20); {
 	case k < 10:
@@ -651,6 +680,12 @@ func c15GenCase(rng *vh.Rand, keys []c15Key) *c15Case {
 			rd["allowed_uri_sans"] = []string{"*"}
 		}
 		delete(rd, "require_cn")
+		ipHeavy = rng.Chance(18)
+		if ipHeavy {
+			// IP-SAN cases: the role permits IP SANs inside a few networks, the request carries 1-4 addresses in random order
+			rd["allow_ip_sans"] = true
+			rd["allowed_ip_sans_cidr"] = append(c15Subset(rng, c15CIDRs, 2), c15CIDRs[rng.Intn(len(c15CIDRs))])
+		}
 	}
 	// request
 	name := func() string {
@@ -671,8 +706,14 @@ func c15GenCase(rng *vh.Rand, keys []c15Key) *c15Case {
 	if strings.ContainsAny(c.cn, ", ") {
 		c.cn = "ex.com"
 	}
-	if rng.Chance(25) {
+	if rng.Chance(25) || ipHeavy {
 		c.ips = c15Subset(rng, c15IPs, 2)
+		if ipHeavy {
+			c.ips = c15Subset(rng, c15IPs, 4)
+			if len(c.ips) == 0 {
+				c.ips = []string{c15IPs[rng.Intn(len(c15IPs))]}
+			}
+		}
 		if rng.Chance(8) {
 			c.ips = append(c.ips, c15BadIPs[rng.Intn(len(c15BadIPs))])
 		}
@@ -742,8 +783,11 @@ func c15GenCase(rng *vh.Rand, keys []c15Key) *c15Case {
 				cs.em = append([]string{""}, append(cs.em, rng.Pick([]string{"x@evil.org", "user@ex.com"}))...)
 			}
 		}
-		if rng.Chance(20) {
+		if rng.Chance(20) || ipHeavy && rng.Chance(60) {
 			cs.ips = c15Subset(rng, c15IPs, 2)
+			if ipHeavy {
+				cs.ips = c15Subset(rng, c15IPs, 4)
+			}
 		}
 		if rng.Chance(20) {
 			cs.uris = c15Subset(rng, c15URIs, 2)
@@ -928,7 +972,7 @@ func c15RunCase(t *testing.T, m *c15Mount, c *c15Case, out *vh.Out) {
 		nr.wild = role.AllowWildcardCertificates != nil && *role.AllowWildcardCertificates
 		nr.lh, nr.any, nr.enf, nr.tdn, nr.cnv = role.AllowLocalhost, role.AllowAnyName, role.EnforceHostnames, role.AllowTokenDisplayName, role.CNValidations
 		f = append(f, nr.fields()...)
-		f = append(f, "ipok="+c15B(role.AllowIPSANs), "auri="+c15L(role.AllowedURISANs), "kt="+role.KeyType, "kb="+strconv.Itoa(role.KeyBits),
+		f = append(f, "ipok="+c15B(role.AllowIPSANs), "acidr="+c15CIDRField(role.AllowedIPSANsCIDR), "auri="+c15L(role.AllowedURISANs), "kt="+role.KeyType, "kb="+strconv.Itoa(role.KeyBits),
 			"ku="+c15P(role.KeyUsage), "eku="+c15P(role.ExtKeyUsage), "sf="+c15B(role.ServerFlag), "cf="+c15B(role.ClientFlag),
 			"csf="+c15B(role.CodeSigningFlag), "epf="+c15B(role.EmailProtectionFlag), "ucn="+c15B(role.UseCSRCommonName),
 			"usans="+c15B(role.UseCSRSANs), "rcn="+c15B(role.RequireCN), "bcnca="+c15B(role.BasicConstraintsValidForNonCA),
